@@ -135,6 +135,20 @@ func filterColumns(row *ovsdb.Row, columns map[string]bool) *ovsdb.Row {
 	return &new
 }
 
+// requested returns the columns and the select of the monitor request for a
+// table. A table without a request (all tables are watched) or a request
+// without a select gets the default select, which reports every kind of change.
+func (m *monitor) requested(table string) ([]string, ovsdb.MonitorSelect) {
+	request := m.request[table]
+	if request == nil {
+		return nil, *ovsdb.NewDefaultMonitorSelect()
+	}
+	if request.Select == nil {
+		return request.Columns, *ovsdb.NewDefaultMonitorSelect()
+	}
+	return request.Columns, *request.Select
+}
+
 func (m *monitor) filter(update database.Update) ovsdb.TableUpdates {
 	// remove updates for tables that we aren't watching
 	tables := update.GetUpdatedTables()
@@ -146,20 +160,21 @@ func (m *monitor) filter(update database.Update) ovsdb.TableUpdates {
 			continue
 		}
 		tu := ovsdb.TableUpdate{}
+		columns, sel := m.requested(table)
 		cols := make(map[string]bool)
 		cols["_uuid"] = true
-		for _, c := range m.request[table].Columns {
+		for _, c := range columns {
 			cols[c] = true
 		}
 		_ = update.ForEachRowUpdate(table, func(uuid string, ru2 ovsdb.RowUpdate2) error {
 			ru := &ovsdb.RowUpdate{}
 			ru.FromRowUpdate2(ru2)
 			switch {
-			case ru.Insert() && m.request[table].Select.Insert():
+			case ru.Insert() && sel.Insert():
 				fallthrough
-			case ru.Modify() && m.request[table].Select.Modify():
+			case ru.Modify() && sel.Modify():
 				fallthrough
-			case ru.Delete() && m.request[table].Select.Delete():
+			case ru.Delete() && sel.Delete():
 				if len(cols) == 0 {
 					return nil
 				}
@@ -185,18 +200,19 @@ func (m *monitor) filter2(update database.Update) ovsdb.TableUpdates2 {
 			continue
 		}
 		tu2 := ovsdb.TableUpdate2{}
+		columns, sel := m.requested(table)
 		cols := make(map[string]bool)
 		cols["_uuid"] = true
-		for _, c := range m.request[table].Columns {
+		for _, c := range columns {
 			cols[c] = true
 		}
 		_ = update.ForEachRowUpdate(table, func(uuid string, ru2 ovsdb.RowUpdate2) error {
 			switch {
-			case ru2.Insert != nil && m.request[table].Select.Insert():
+			case ru2.Insert != nil && sel.Insert():
 				fallthrough
-			case ru2.Modify != nil && m.request[table].Select.Modify():
+			case ru2.Modify != nil && sel.Modify():
 				fallthrough
-			case ru2.Delete != nil && m.request[table].Select.Delete():
+			case ru2.Delete != nil && sel.Delete():
 				if len(cols) == 0 {
 					return nil
 				}
